@@ -1672,6 +1672,19 @@ class DB:
             for f in self.fns.values():
                 if f.kind in ("closure", "coroutine") and f.parent:
                     self._children[f.parent].append(f)
+            if self.inline_mode:
+                # in a view a body also owns the closures / async blocks whose *creation* was spliced into it (a helper
+                # spliced into several callers is created in each of them)
+                for f in self.fns.values():
+                    if not (f.crate or "").startswith("ractor") or not getattr(f, "uninlined", None):
+                        continue
+                    have = set(x.id for x in self._children.get(f.id, []))
+                    for _site, st in f.stmts():
+                        if st["k"] == "assign" and st["rv"]["k"] == "agg" and st["rv"].get("kind") in ("closure", "coroutine", "coroutine_closure"):
+                            g = self.fns.get(st["rv"].get("def"))
+                            if g is not None and g.id not in have and g.id != f.id:
+                                have.add(g.id)
+                                self._children[f.id].append(g)
         return self._children.get(fn_id, [])
     def family(self, fn_id):
         """fn plus all nested closures/coroutines, transitively"""
